@@ -41,8 +41,12 @@ MAX_LATENT_DRAWS_ACC = 6_000_000  # same, accumulate_weights=True
 MAX_REF_DRAWS = 40_000_000  # per cell, harness guard (inconclusive)
 MAX_POPULATIONS = 4000
 
+SLACK = 1e-3  # float32 allowance when pool points are mapped back
+MAX_OUTSIDE = 1e-3  # tolerated fraction of pool points outside the contour
+SPREAD = 0.5  # second bucket: s.d. of the per-batch maximum log-weight
 KEY_F13 = f"populate:per-batch-max:accepted-per-batch<{K_BATCH}"
-KEY_F13_REJ = "rejection." + KEY_F13
+KEY_F13_SPREAD = f"populate:per-batch-max:log-max-spread>{SPREAD}"
+KEY_ACC_SPREAD = f"populate:accumulated-max:log-max-spread>{SPREAD}"
 
 RULE_B = (
     "(B) distribution cells: Hypothesis-generated proposal configurations "
@@ -399,6 +403,7 @@ class _Recorder:
         self.cand = 0
         self.weighted_batches = 0
         self.log_max = []
+        self.pop_log_max = []  # per population: maximum over its batches
         self.exp_acc = 0.0
         self.min_log_q = None
         draw = fp.draw_latent_prior
@@ -429,6 +434,9 @@ class _Recorder:
                 with np.errstate(all="ignore"):
                     m = np.nanmax(lw)
                     self.log_max.append(float(m))
+                    if self.pop_log_max:
+                        self.pop_log_max[-1] = max(self.pop_log_max[-1],
+                                                   float(m))
                     self.exp_acc += float(np.nansum(np.exp(lw - m)))
             return res
 
@@ -464,29 +472,34 @@ class _Contour:
         return (self.r, self.fuzz, self.min_log_q)
 
 
-def _forward(fp, case, x, rs):
-    """Latent image and forward log-density of physical points (array)."""
+def _forward(fp, case, x, rs, aug=None):
+    """Latent image and forward log-density of physical points (array).
+    Augment parameters: `aug` (pool points carry theirs) or N(0,1) draws
+    from the harness generator (reference points)."""
     from nessai.livepoint import (
         live_points_to_array, numpy_array_to_live_points)
 
     lp = numpy_array_to_live_points(x, fp.model.names)
     if case["proposal"] == "augmented":
         xp, log_j = fp.rescale(lp, generate_augment="zeros")
-        for an in fp.augment_parameters:
-            xp[an] = rs.standard_normal(xp.size)
+        for k, an in enumerate(fp.augment_parameters):
+            xp[an] = rs.standard_normal(xp.size) if aug is None else aug[:, k]
         arr = live_points_to_array(xp, names=fp.prime_parameters, copy=True)
         z, lq = fp.flow.forward_and_log_prob(arr)
         return z, lq + log_j
     return fp.forward_pass(lp, rescale=True, compute_radius=False)
 
 
-def _member(fp, case, contour, x, rs, count=None):
-    z, log_q = _forward(fp, case, x, rs)
+def _member(fp, case, contour, x, rs, count=None, aug=None, slack=0.0):
+    """Contour membership.  slack > 0 (pool points): float32 allowance
+    slack * max(1, .) on the radius and on the log-density."""
+    z, log_q = _forward(fp, case, x, rs, aug)
     z = np.asarray(z, float)
     keep = np.isfinite(z).all(axis=1)
     rad = np.sqrt((z**2).sum(axis=1))
     if contour.radial:
-        keep &= rad <= contour.r * contour.fuzz
+        rr = contour.r * contour.fuzz
+        keep &= rad <= rr + slack * max(1.0, rr)
     if contour.min_log_q is not None:
         used = np.asarray(log_q, float)
         if contour.alt:
@@ -494,14 +507,15 @@ def _member(fp, case, contour, x, rs, count=None):
             # alternative latent distribution (closed forms)
             d = z.shape[1]
             rr = contour.r * contour.fuzz
-            alt = np.where((np.abs(z) <= rr).all(axis=1),
+            alt = np.where((np.abs(z) <= rr * (1 + slack)).all(axis=1),
                            -d * math.log(2 * rr), -np.inf)
             used = used - _std_normal_logpdf(z) + alt
         if count is not None:
             count["in_radius"] += int(keep.sum())
             count["cut_by_log_q"] += int(
                 (keep & ~(used > contour.min_log_q)).sum())
-        keep &= used > contour.min_log_q
+        keep &= used > contour.min_log_q - slack * max(
+            1.0, abs(contour.min_log_q))
     return keep
 
 
@@ -545,9 +559,36 @@ def _judge(case, tests, meas):
         case["proposal"] in ("flow", "augmented")
         and not case["accumulate_weights"]
     ) or case["proposal"] == "rejection"
+    spread = meas.get("log_max_sd")
+    bucket = None
     if per_batch and apb is not None and apb < K_BATCH:
+        bucket = KEY_F13
+    elif per_batch and spread is not None and spread > SPREAD:
+        bucket = KEY_F13_SPREAD
+    pop_spread = meas.get("pop_log_max_sd")
+    if (case["proposal"] in ("flow", "augmented")
+            and case["accumulate_weights"] and pop_spread is not None
+            and pop_spread > SPREAD):
         v = Violation(
-            KEY_F13_REJ if case["proposal"] == "rejection" else KEY_F13,
+            KEY_ACC_SPREAD,
+            f"pool of {N_POINTS} points differs from the prior restricted "
+            f"to the contour ({detail}; threshold {thr:.3g}); "
+            "accumulate_weights=True normalises the weights of a population "
+            "by the largest weight drawn so far; over "
+            f"{meas.get('populations')} populations that maximum has a "
+            f"spread (s.d. of its log) of {pop_spread:.2f}: the weights "
+            "have no attainable maximum "
+            f"({meas.get('accepted_per_population', float('nan')):.0f} "
+            "accepted per population)",
+            case,
+        )
+        v.meas = meas
+        raise v
+    if bucket:
+        if case["proposal"] == "rejection":
+            bucket = "rejection." + bucket
+        v = Violation(
+            bucket,
             f"pool of {N_POINTS} points differs from the prior restricted "
             f"to the contour ({detail}; threshold {thr:.3g}); weights are "
             "normalised by the maximum of each batch and only "
@@ -592,6 +633,7 @@ def _run_flow_cell(case, out):
                     else MAX_LATENT_DRAWS)
     parts, groups = [], []
     total = 0
+    n_outside = 0
     n_acc = 0.0
     npop = 0
     while total < N_POINTS:
@@ -600,6 +642,7 @@ def _run_flow_cell(case, out):
             raise _Inconclusive("population-budget")
         d0 = rec.draws
         rec.min_log_q = None
+        rec.pop_log_max.append(-math.inf)
         _nessai(cname + ".populate", case, fp.populate, worst,
                 N=fp.poolsize, plot=False)
         s = fp.samples
@@ -611,6 +654,12 @@ def _run_flow_cell(case, out):
         x = np.stack([s[n] for n in model.names], -1).astype(float)
         x = x[: N_POINTS - total]
         c = _Contour(fp, case, rec)
+        aug = None
+        if case["proposal"] == "augmented":
+            aug = np.stack([fp.x[n] for n in fp.augment_parameters],
+                           -1).astype(float)[: len(x)]
+        inside = _member(fp, case, c, x, None, aug=aug, slack=SLACK)
+        n_outside += int((~inside).sum())
         if groups and groups[-1][0].key() == c.key():
             groups[-1][1] += len(x)
         else:
@@ -632,8 +681,22 @@ def _run_flow_cell(case, out):
     )
     if case["accumulate_weights"]:
         meas["accepted_per_population"] = n_acc / npop
+        pm = [m for m in rec.pop_log_max if math.isfinite(m)]
+        meas["pop_log_max_sd"] = float(np.std(pm)) if pm else 0.0
     if not np.isfinite(pool).all():
         raise Violation("pool:non-finite", "pool contains NaN/inf", case)
+    meas["pool_outside_contour"] = n_outside
+    if n_outside > MAX_OUTSIDE * len(pool):
+        v = Violation(
+            "pool:outside-contour:" + case["proposal"],
+            f"{n_outside} of {len(pool)} pool points map outside the "
+            "contour their population was drawn from (latent radius <= "
+            "r*fuzz"
+            + (", log-q above the truncation threshold"
+               if case["truncate_log_q"] else "")
+            + f"; relative slack {SLACK:g})", case)
+        v.meas = meas
+        raise v
     outside = ((pool < prior.lo) | (pool > prior.hi)).any(axis=1)
     if outside.any():
         v = Violation(
@@ -666,6 +729,18 @@ def _run_uninformed_cell(case):
     prop = _nessai(cls.__name__ + ".__init__", case, cls, model,
                    poolsize=int(case["poolsize"]))
     _nessai(cls.__name__ + ".initialise", case, prop.initialise)
+    log_max = []
+    if case["proposal"] == "rejection":
+        weights = prop.compute_weights
+
+        def compute_weights(x, *a, **kw):  # passive recorder
+            res = weights(x, *a, **kw)
+            lw = np.asarray(res[0] if isinstance(res, tuple) else res, float)
+            if lw.size and np.isfinite(lw).any():
+                log_max.append(float(np.nanmax(lw)))
+            return res
+
+        prop.compute_weights = compute_weights
     parts, total, npop = [], 0, 0
     while total < N_POINTS:
         npop += 1
@@ -686,6 +761,7 @@ def _run_uninformed_cell(case):
         meas["accepted_per_batch"] = n_all / npop
         meas["acceptance"] = n_all / (npop * int(case["poolsize"]))
         meas["candidates_per_batch"] = float(case["poolsize"])
+        meas["log_max_sd"] = float(np.std(log_max)) if log_max else 0.0
     s, dof, p, nb = chi2_one_sample(pool, prior)
     tests = [("chi2-2d", s, p)]
     meas["chi2_bins"] = nb
@@ -784,7 +860,12 @@ def cells(draw, forced=None):
         if acc and size == "wide":
             size = "moderate"  # accumulated draws would exceed the budget
         kind = draw(st.sampled_from(["fuzz", "expansion", "fixed"]))
-        if kind == "fuzz":
+        if size == "beyond":
+            # a contour reaching beyond the training points (where the
+            # log-q truncation acts)
+            kind = "fixed"
+            case["fixed_radius"] = draw(st.sampled_from([3.5, 4.0]))
+        elif kind == "fuzz":
             case["fuzz"] = draw(st.sampled_from(
                 {"tight": [1.0, 1.05], "moderate": [1.1, 1.2, 1.3],
                  "wide": [1.5, 2.0]}[size]))
@@ -797,7 +878,9 @@ def cells(draw, forced=None):
                 {"tight": [2.0, 2.5, 3.0], "moderate": [3.0, 3.5],
                  "wide": [4.0, 5.0]}[size]))
             case["fuzz"] = draw(st.sampled_from([1.0, 1.0, 1.1]))
-        if draw(st.integers(0, 5)) == 0:
+        if size == "beyond":
+            pass
+        elif draw(st.integers(0, 5)) == 0:
             case["max_radius"] = draw(st.sampled_from([2.0, 3.0, 50.0]))
         if draw(st.integers(0, 7)) == 0:
             case["min_radius"] = draw(st.sampled_from([1.0, 3.0]))
@@ -860,7 +943,7 @@ def cells(draw, forced=None):
             "sd": [float(draw(st.sampled_from(sf)) * (hi[i] - lo[i]))
                    for i in range(2)],
         }
-    case["n_train"] = draw(st.sampled_from([100, 200, 500, 1000]))
+    case["n_train"] = pick("n_train", st.sampled_from([100, 200, 500, 1000]))
     case["worst_rank"] = draw(st.sampled_from([0.0, 0.0, 0.25, 0.5]))
     if proposal == "augmented":
         case["augment_dims"] = draw(st.sampled_from([1, 1, 2]))
@@ -901,8 +984,9 @@ TEMPLATES = [
          reparam="logit", prior="nonuniform"),
     dict(proposal="flow", latent_prior=_NB, truncate_log_q=True,
          contour="moderate", state="trained"),
-    dict(proposal="flow", latent_prior="gaussian", train="prior",
-         truncate_log_q=True, reparam="zscore", lax_prior=False),
+    dict(proposal="flow", latent_prior="gaussian", train="wide",
+         truncate_log_q=True, reparam="zscore", lax_prior=False,
+         n_train=100),
     dict(proposal="flow", latent_prior="gaussian", train="prior",
          reparam="logit", accumulate_weights=True, state="trained"),
     dict(proposal="flow", latent_prior="flow", train="wide",
@@ -910,10 +994,10 @@ TEMPLATES = [
     dict(proposal="flow", latent_prior="flow", train="blob",
          accumulate_weights=False, truncate_log_q=False),
     dict(proposal="flow", latent_prior=_TG, constant_volume_mode=False,
-         contour="moderate", truncate_log_q=True, accumulate_weights=True,
-         state="trained"),
+         contour="beyond", truncate_log_q=True, accumulate_weights=True,
+         state="trained", n_train=100),
     dict(proposal="augmented", latent_prior=_TG, constant_volume_mode=True,
-         reparam="zscore", state="trained", lax_prior=False),
+         reparam="zscore", state="trained", lax_prior=True, train="edge"),
     dict(proposal="augmented", latent_prior=_TG, constant_volume_mode=False,
          contour="tight", generate_augment="gaussian", reparam="logit",
          accumulate_weights=True),
@@ -948,6 +1032,10 @@ ANTICIPATED = [
          drawsize=50000),
     dict(_ANT_FLOW, label="F13-control:flow:accumulate_weights",
          accumulate_weights=True, drawsize=2000),
+    dict(_ANT_FLOW, label="F13:flow:accumulate_weights:poolsize=10",
+         accumulate_weights=True, drawsize=100, poolsize=10),
+    dict(_ANT_FLOW, label="F13-control:flow:accumulate_weights:poolsize=300",
+         accumulate_weights=True, drawsize=100, poolsize=300),
     dict(kind="dist-cell", proposal="rejection", poolsize=20, seed=5,
          model={"name": "gauss_gauss", "dims": 2, "s_p": 1.0},
          label="F13:rejection:poolsize=20"),
@@ -1027,7 +1115,7 @@ def shard(cases):
     out = Outcome()
     stats = out.stats
     agg = stats.extra.setdefault("dist_measured", {})
-    rows = stats.extra.setdefault("dist_cells", [])
+    rows = stats.extra.setdefault("dist_cells", {})
     for case in cases:
         label = case.get("label")
         case = {k: v for k, v in case.items() if k != "label"}
@@ -1064,8 +1152,8 @@ def shard(cases):
                 time.time() - t0, status, jhash(case),
                 meas and meas.get("latent_draws"),
                 meas and meas.get("contour_prior_fraction")), flush=True)
-        rows.append({
-            "label": label or "", "status": status, "hash": jhash(case),
+        rows[jhash(case)] = ({
+            "label": label or "", "status": status,
             "proposal": case["proposal"],
             "min_p": None if not meas else meas.get("min_p"),
             "accepted_per_batch": None if not meas else meas.get(
@@ -1155,7 +1243,7 @@ def health_cells(ctx, stats):
                    "distribution cells inconclusive")
     # the controls of the anticipated finding must pass, the reproductions
     # must fail: otherwise the bucket boundary means nothing
-    for row in stats.extra.get("dist_cells", []):
+    for row in stats.extra.get("dist_cells", {}).values():
         lab = row.get("label") or ""
         if lab.startswith("F13-control") and row["status"] != "pass":
             bad.append(f"control cell {lab} did not pass: {row['status']}")
